@@ -89,15 +89,74 @@ Print Assumptions C16_tamper_detected.
 
 (* ---- a nonce is never used twice: all Seal calls of a writing session (any number of Writes
    of any sizes, from any start counter, including the call that precedes an overflow panic)
-   use pairwise different nonces ... *)
+   use pairwise different nonces — WHATEVER THE UNDERLYING TRANSPORT DOES with the sealed frames.
+   [outs] scripts the result of every sc.conn.Write of the session: TOk, or TErr m = it returned an
+   error after m bytes of the frame had reached the wire (nothing, a part, all of it; a write
+   deadline, a temporary error, a broken pipe); after such an error Write returns it and the
+   caller may call Write again on the same connection ([run_writes_t] goes on with the next
+   Write).  Every frame handed to the transport — delivered, cut short or refused — was sealed
+   under its own counter c0, c0+1, c0+2, ... in order, and is the output of one of the Seal
+   calls (all of them are handed over, except the one that precedes an overflow panic).
+   [outs = []] is the transport that never fails: C16_no_fault_same. *)
 Theorem C16_nonce_unique :
   forall (key cipher : Type) (seal : key -> bytes -> bytes -> cipher) (pool : bytes -> bytes)
          (k : key) (pre : bytes),
     length pre = 4%nat ->
-  forall (c0 : N) (ws : list bytes), c0 <= max_uint64 ->
-    NoDup (map sl_nonce (all_calls (run_writes key cipher seal pool k (nonce_of pre c0) ws))).
-Proof. exact nonce_unique. Qed.
+  forall (c0 : N) (ws : list bytes) (outs : list tout), c0 <= max_uint64 ->
+    let W := run_writes_t key cipher seal pool k (nonce_of pre c0) ws outs in
+    NoDup (map sl_nonce (all_calls_t W)) /\
+    map (fun x : bytes * cipher * tout => fst (fst x)) (all_wire_t W)
+      = map (nonce_of pre) (nseq c0 (length (all_wire_t W))) /\
+    exists last, (length last <= 1)%nat /\
+      map (fun s => (sl_nonce s, sl_out s)) (all_calls_t W) = map fst (all_wire_t W) ++ last.
+Proof. exact nonce_unique_t. Qed.
 Print Assumptions C16_nonce_unique.
+
+(* the state after one Write over such a transport: sendNonce has moved past every frame that
+   was sealed — also past the frame whose conn.Write failed — so the next Write seals under a
+   counter no frame has seen *)
+Theorem C16_nonce_advances :
+  forall (key cipher : Type) (seal : key -> bytes -> bytes -> cipher) (pool : bytes -> bytes)
+         (k : key) (pre : bytes),
+    length pre = 4%nat ->
+  forall (c : N) (d : bytes) (outs : list tout), c <= max_uint64 ->
+    let w := write_t key cipher seal pool k (nonce_of pre c) d outs in
+    wt_panic w = false ->
+    wt_nonce w = nonce_of pre (c + N.of_nat (length (wt_calls w))) /\
+    length (wt_wire w) = length (wt_calls w).
+Proof. exact nonce_advances. Qed.
+Print Assumptions C16_nonce_advances.
+
+(* over a transport that never fails the scripted writer is the writer of the other theorems:
+   same bytes accepted, Seal calls, frames, nonce, panic; never an error *)
+Theorem C16_no_fault_same :
+  forall (key cipher : Type) (seal : key -> bytes -> bytes -> cipher) (pool : bytes -> bytes)
+         (k : key) (ws : list bytes) (nonce : bytes),
+    map wt_view (run_writes_t key cipher seal pool k nonce ws []) =
+    map w_view (run_writes key cipher seal pool k nonce ws).
+Proof. exact no_fault_same. Qed.
+Print Assumptions C16_no_fault_same.
+
+(* tamper evidence when the writer's transport failed here and there: whatever reaches the reader
+   (whole frames, the pieces of frames that got through, anything else) and however it Reads,
+   what it returns is a prefix of the plaintext carried by the frames the writer handed to the
+   transport, in order — or an AEAD forgery is exhibited *)
+Theorem C16_tamper_evident_faulty_writer :
+  forall (key cipher : Type) (seal : key -> bytes -> bytes -> cipher)
+         (open : key -> bytes -> cipher -> option bytes) (pool : bytes -> bytes) (k : key)
+         (pre : bytes),
+    length pre = 4%nat ->
+    (forall n p, open k n (seal k n p) = Some p) ->
+    (forall a b : cipher, {a = b} + {a <> b}) ->
+  forall (c0 : N) (ws : list bytes) (outs : list tout) (conn : list (conn_ev cipher))
+         (caps : list nat) rs st' conn',
+    c0 <= max_uint64 ->
+    let W := run_writes_t key cipher seal pool k (nonce_of pre c0) ws outs in
+    run_reads key cipher open k (reader_init (nonce_of pre c0)) conn caps = (rs, st', conn') ->
+    (exists rest, handed_stream W = concat (map rres_data rs) ++ rest)
+    \/ AeadForgeryOn open k (map fst (all_wire_t W)).
+Proof. exact tamper_evident_t. Qed.
+Print Assumptions C16_tamper_evident_faulty_writer.
 
 (* ... and the counter never wraps: incrNonce moves c to c+1 <= 2^64-1 or panics at 2^64-1 *)
 Theorem C16_nonce_no_wrap :
@@ -242,6 +301,28 @@ Example C16_nonce_nonvacuous :
   (* a Write at the last counter panics after sealing and sends nothing *)
   (let w := write N t_cipher t_seal t_pool 5 (nonce_of [0; 0; 0; 0] max_uint64) [1] in
    w_panic w = true /\ length (w_calls w) = 1%nat /\ w_sent w = []).
+Proof. vm_compute. repeat split; reflexivity. Qed.
+
+(* Writes of 3, 1, 2 bytes; the transport takes the first frame, fails after 600 bytes of the
+   second (the Write returns the error), fails before anything of the third, takes the fourth:
+   four Seal calls under counters 1, 2, 3, 4 — and what a writer that only advanced the nonce
+   after a successful conn.Write would have done (counter 2 three times) is excluded *)
+Definition t_Wf := run_writes_t N t_cipher t_seal t_pool 5 (nonce_of [0; 0; 0; 0] 1)
+                     [[1; 2; 3]; [4]; [5; 6]; [7]] [TOk; TErr 600; TErr 0].
+Example C16_nonce_fault_nonvacuous :
+  map (@sl_nonce t_cipher) (all_calls_t t_Wf)
+    = [nonce_of [0; 0; 0; 0] 1; nonce_of [0; 0; 0; 0] 2; nonce_of [0; 0; 0; 0] 3; nonce_of [0; 0; 0; 0] 4] /\
+  map (fun x : bytes * t_cipher * tout => snd x) (all_wire_t t_Wf) = [TOk; TErr 600; TErr 0; TOk] /\
+  map (fun w => (wt_n w, wt_err w)) t_Wf = [(3, false); (0, true); (0, true); (1, false)]%nat /\
+  handed_stream t_Wf = [1; 2; 3; 4; 5; 6; 7] /\
+  (* the reader of that session: frame 0 arrives, the piece of frame 1 and frame 3 do not open *)
+  (match map (fun x : bytes * t_cipher * tout => snd (fst x)) (all_wire_t t_Wf) with
+   | [f0; f1; f2; f3] =>
+     fst (fst (run_reads N t_cipher t_open 5 (reader_init (nonce_of [0; 0; 0; 0] 1))
+                 [EvBlock f0; EvErr; EvBlock f3] [9; 9; 9]%nat))
+     = [ROk [1; 2; 3]; RErrIO; RErrDecrypt]
+   | _ => False
+   end).
 Proof. vm_compute. repeat split; reflexivity. Qed.
 
 (* toy handshake primitives *)
